@@ -557,10 +557,30 @@ def check_mem_asks_table(P, ctx):
     ctx.floor(rule, 1)
 
 
+def check_widths(P, ctx, load, unit='src/GC.c', rule='C17.slot-numbers-keep-their-width', what='registry'):
+    """slot numbers, counts and stored home slots are 64-bit quantities that grow with the table: nothing in the unit converts one to a
+    narrower integer type (a field of 16 or 32 bits holds them only while the table is small — the suite's tables are)"""
+    n = 0
+    for fn in P.all_functions():
+        if fn['unit'] != unit or fn.get('body') is None:
+            continue
+        n += 1
+        for ln, t, e in util.narrowing_conversions(P, fn):
+            ctx.fn(fn)
+            ctx.refuted(rule, '%s:narrowed' % fn['name'], site(fn, ln), 'a 64-bit value of the %s (`%s`) is converted to %s: slot numbers beyond its range are stored wrong' % (what, ir.fmt(e)[:50], t))
+    Ppos = load(['src/Exception.c'], 'default', ['/verif/witness/positive/narrow.c'])
+    ctx.config = 'default'
+    pos = util.narrowing_conversions(Ppos, Ppos.fn('PosEntry_Store'))
+    ctx.check(bool(pos), rule, 'positive-example', 'witness/positive/narrow.c', 'the detector fires on an entry whose home-slot field is 16 bits wide (PosEntry_Store)')
+    ctx.check(n >= 10, rule, 'functions-scanned', unit, '%d functions of %s hold no conversion of a 64-bit integer to a narrower one' % (n, unit))
+    ctx.floor(rule, 2)
+
+
 def run(ctx, load):
     P = load(UNITS, 'default')
     ctx.stats['units'] = set(UNITS)
     ctx.stats['configs'] = ['default']
+    check_widths(P, ctx, load)
     check_probe_agreement(P, ctx)
     check_entry_moves_whole(P, ctx)
     check_counts(P, ctx)
